@@ -6,8 +6,8 @@ The invariant holds initially and is preserved by every fault-free step: it hold
 namespace GoLevel.Dur
 
 theorem inv_init (cfg : Cfg) : Inv cfg init.1 init.2 := by
-  obtain ⟨a, b, c, e, f⟩ := cfg
-  cases a <;> cases b <;> cases c <;> cases e <;> cases f <;> decide
+  obtain ⟨a, b, c, e, f, g, h, i, k⟩ := cfg
+  cases a <;> cases b <;> cases c <;> cases e <;> cases f <;> cases g <;> cases h <;> cases i <;> cases k <;> decide
 
 theorem failTo_everFailed (s : St) (j : Job) (pc : JPc) : (failTo s j pc).everFailed = s.everFailed := by
   unfold failTo giveUp; split <;> rfl
@@ -159,9 +159,16 @@ theorem step_everFailed {cfg : Cfg} {s : St} {d : Disk} {a : Act} (hff : a.write
     obtain ⟨s1, hs1, rfl, rfl⟩ := hs
     exact stepTr_everFailed hef hs1
   | trDiscard =>
-    simp only [step, Option.map_eq_some_iff, Prod.mk.injEq] at hs
-    obtain ⟨s1, hs1, rfl, rfl⟩ := hs
-    exact stepTr_everFailed hef hs1
+    simp only [step] at hs
+    split at hs
+    · simp only [Option.map_eq_some_iff, Prod.mk.injEq] at hs
+      obtain ⟨s1, hs1, rfl, rfl⟩ := hs
+      exact stepTr_everFailed hef hs1
+    · unfold trDiscardJob at hs
+      repeat' split at hs
+      all_goals first
+        | (simp only [Option.some.injEq, Prod.mk.injEq] at hs; obtain ⟨rfl, _⟩ := hs; exact hef)
+        | cases hs
 
 theorem inv_step {cfg : Cfg} (hg : cfg.Good) {s : St} {d : Disk} (h : Inv cfg s d) {a : Act}
     (hff : a.faultFree = true)
@@ -228,9 +235,12 @@ theorem inv_step {cfg : Cfg} (hg : cfg.Good) {s : St} {d : Disk} (h : Inv cfg s 
     obtain ⟨s1, hs1, rfl, rfl⟩ := hs
     exact inv_stepTr h hs1
   | trDiscard =>
-    simp only [step, Option.map_eq_some_iff, Prod.mk.injEq] at hs
-    obtain ⟨s1, hs1, rfl, rfl⟩ := hs
-    exact inv_stepTr h hs1
+    simp only [step] at hs
+    split at hs
+    · simp only [Option.map_eq_some_iff, Prod.mk.injEq] at hs
+      obtain ⟨s1, hs1, rfl, rfl⟩ := hs
+      exact inv_stepTr h hs1
+    · exact inv_trDiscardJob h hs
 
 theorem inv_run {cfg : Cfg} (hg : cfg.Good) {sd sd' : St × Disk} (h : Inv cfg sd.1 sd.2)
     (hef : sd.1.everFailed = false) (as : List Act)
